@@ -60,48 +60,44 @@ TOL_Q = 1e-11
 SUSPECT = 1e-7  # scipy's expm is audited to 1e-12; larger differences need no second opinion
 EPS = 2.220446049250313e-16
 EIGEN_MODELS = ("HKY", "GTR", "GeneralSymmetric", "MG94")  # p_t through the symmetrised eigen-decomposition
-C_COND = 2000.0  # measured on the unchanged tree: error <= 391 eps cond(D) while t|Q| < 1e5 (9000 skewed cases)
 C_TQ = 20.0  # first-order effect of rounding the entries of Q on expm(tQ): <= eps t |Q|_inf (measured <= 3.2)
 SKEW_RATIO = 2.0e4  # frequencies with max/min above this are "skewed" (the ordinary generator stays <= 1e4)
-TQ_LARGE = 1.0e5
+AMP_LARGE = 3.0e5  # cond(D) * t|Q|: measured error of the eigen route <= 0.41 eps cond(D) t|Q| (9000 skewed cases)
 
 
 def tol_p(model, pi, tq, single):
-    """tolerance on entries of P(t) for one slice and one t, derived from conditioning:
-    * eigen route (HKY, GTR, general symmetric, MG94): P = D^-1 V exp(Et) V' D with D = diag(sqrt(pi));
-      the back-transformation amplifies rounding by cond(D) = sqrt(max pi / min pi)  ->  C_COND eps cond(D)
-      (1e-10 up to a frequency ratio of 5e4; 4.4e-8 at a ratio of 1e10);
-    * non-symmetric model with skewed frequencies: rounding of the entries of Q alone moves
-      expm(tQ) by up to eps t |Q|_inf, and normalisation by a dominant frequency makes t |Q| huge there
-      ->  C_TQ eps t |Q|_inf;
-    never below the 1e-10 (1e-9 single matrix) of DESIGN C04-B"""
+    """tolerance on entries of P(t) for one slice and one t: the 1e-10 (1e-9 single matrix) of
+    DESIGN C04-B.  Reversible models keep it for every frequency vector (a Pade reference attains it
+    on the same matrices).  Only for the non-symmetric model with skewed frequencies (max/min > 2e4)
+    the conditioning of the problem itself is added: rounding the entries of a non-normal Q moves
+    expm(tQ) by up to eps t |Q|_inf (first order; exp(sQ) are contractions in the inf-norm) and
+    normalisation by a dominant frequency makes t |Q| huge there -> C_TQ eps t |Q|_inf (measured on
+    torch.matrix_exp and scipy alike: <= 3.2 eps t |Q|)."""
     base = TOL_P_SINGLE if single else TOL_P
     pi = np.asarray(pi, dtype=float)
-    ratio = float(np.max(pi) / np.min(pi))
-    if model in EIGEN_MODELS:
-        return max(base, C_COND * EPS * math.sqrt(ratio))
-    if model == "GeneralNonSymmetric" and ratio > SKEW_RATIO:
+    if model == "GeneralNonSymmetric" and float(np.max(pi) / np.min(pi)) > SKEW_RATIO:
         return max(base, C_TQ * EPS * tq)
     return base
 
 
+def is_ill(model, pi, tq):
+    """the corner where the symmetrised eigen-decomposition (HKY, GTR, general symmetric, MG94) is
+    known to lose accuracy: skewed frequencies and cond(diag(sqrt(pi))) * t|Q|_inf >= 3e5"""
+    pi = np.asarray(pi, dtype=float)
+    ratio = float(np.max(pi) / np.min(pi))
+    return model in EIGEN_MODELS and ratio > SKEW_RATIO and math.sqrt(ratio) * max(1.0, tq) >= AMP_LARGE
+
+
 def bands(c):
-    """classification of a case by conditioning (tags, known-finding predicates):
-    pi_band: 'regular' / 'ratio>2e4' by max/min frequency over the slices;
-    tq_band: '<1e5' / '>=1e5' by the largest t |Qn|_inf over slices and branch lengths (oracle's Qn)"""
+    """pi_band: 'regular' / 'ratio>2e4' by the largest max/min frequency over slices (and rounds)"""
     states = [c] if "rounds" not in c else _history_states(c)
-    ratio, tq = 1.0, 0.0
+    ratio = 1.0
     for s in states:
         if s["model"] in PARAM_FREE:
             continue
         fr = np.asarray(s["freqs"], dtype=float)
         ratio = max(ratio, float(np.max(fr.max(axis=1) / fr.min(axis=1))))
-        _, tper = times_of(s)
-        tmax = np.maximum(tper.max(axis=1), s["s"][0] + s["s"][1])
-        for i in range(_n(s["ss"])):
-            Qn, _ = rm.q_normalised(s["model"], **oracle_params(s, i))
-            tq = max(tq, float(tmax[i] * np.max(np.sum(np.abs(Qn), axis=1))))
-    return {"pi_band": "ratio>2e4" if ratio > SKEW_RATIO else "regular", "tq_band": ">=1e5" if tq >= TQ_LARGE else "<1e5"}
+    return {"pi_band": "ratio>2e4" if ratio > SKEW_RATIO else "regular"}
 
 
 def _history_states(c):
@@ -528,7 +524,7 @@ def _check_state(c, m, res, key, out):
         if norm_m is None:
             return res.fail("norm_shape", {"norm": list(nm.shape), "sample_shape": list(ss)})
 
-    worst = 0.0
+    ill_seen = [False]
     for i in range(n):
         Q, pi = Qs[i], pis[i]
         d = {"slice": i}
@@ -586,42 +582,64 @@ def _check_state(c, m, res, key, out):
         if k <= 6 and h64(key) % 8 == 0 and i == 0:
             _audit(Qn, pi, float(tper[i, 0]), model in REVERSIBLE)
         qnorm = float(np.max(np.sum(np.abs(Qn), axis=1)))
+        cond = math.sqrt(float(np.max(pi) / np.min(pi)))
+        rev = model in REVERSIBLE
+
+        def verdict(Pmat, t, sgl, what=None):
+            """clauses (c)-(e) for one matrix; None or (kind, detail)"""
+            tol = tol_p(model, pi, t * qnorm, sgl)
+            dd = dict(d, t=t, tolerance=tol)
+            if what:
+                dd["what"] = what
+            ref = rm.p_t(Qn, t)
+            err = maxabs(Pmat, ref)
+            if tol < err <= max(SUSPECT, 100 * EPS * t * qnorm):  # too small to be a gross error: let multiple precision decide
+                ref = _reference(Qn, pi, t, rev, ref)
+                err = maxabs(Pmat, ref)
+            if not err <= tol:
+                return "mismatch", dict(dd, err=err, p=_mat(Pmat), expected=_mat(ref))
+            if np.max(np.abs(Pmat.sum(axis=1) - 1.0)) > tol or np.min(Pmat) < -tol:
+                return "not_stochastic", dict(dd, rowsums=Pmat.sum(axis=1).tolist(), min=float(np.min(Pmat)))
+            # P(0): the eigen route forms (D^-1 V)(V^-1 D), exact up to ~ eps cond(D)
+            if t == 0.0 and maxabs(Pmat, np.eye(k)) > max(1e-12, 10 * EPS * cond if model in EIGEN_MODELS else 0.0):
+                return "p0_not_identity", dict(dd, p=_mat(Pmat))
+            if rev:
+                if np.max(np.abs(pi @ Pmat - pi)) > tol:
+                    return "not_stationary", dict(dd, piP=(pi @ Pmat).tolist(), pi=pi.tolist())
+                F = pi[:, None] * Pmat
+                if np.max(np.abs(F - F.T)) > tol:
+                    return "detailed_balance", dict(dd, err=float(np.max(np.abs(F - F.T))))
+            return None
+
+        def report(v, t):
+            """record a failure; True = stop here, False = it lies in the ill-conditioned corner of the
+            eigen route (tagged amp_band '>=3e5', at most one per state) and the search goes on"""
+            ill = is_ill(model, pi, t * qnorm)
+            if ill and ill_seen[0]:
+                return False
+            res.fail(v[0], v[1], tband=_band(t, [1e-4, 1e-1, 10], ["<1e-4", "<1e-1", "<10", ">=10"]), amp_band=">=3e5" if ill else "<3e5")
+            if ill:
+                ill_seen[0] = True
+            return not ill
+
         for j in range(nt):
             t = float(tper[i, j])
-            Pij = Ps[i, j]
-            d2 = dict(d, t=t)
-            ref = rm.p_t(Qn, t)
-            err = maxabs(Pij, ref)
-            worst = max(worst, err)
-            tolP = tol_p(model, pi, t * qnorm, single)
-            d2["tolerance"] = tolP
-            if tolP < err <= max(SUSPECT, 100 * EPS * t * qnorm):  # too small to be a gross error: let multiple precision decide
-                ref = _reference(Qn, pi, t, model in REVERSIBLE, ref)
-                err = maxabs(Pij, ref)
-            if not err <= tolP:
-                return res.fail("mismatch", dict(d2, err=err, p=_mat(Pij), expected=_mat(ref)), tband=_band(t, [1e-4, 1e-1, 10], ["<1e-4", "<1e-1", "<10", ">=10"]))
-            if np.max(np.abs(Pij.sum(axis=1) - 1.0)) > tolP or np.min(Pij) < -tolP:
-                return res.fail("not_stochastic", dict(d2, rowsums=Pij.sum(axis=1).tolist(), min=float(np.min(Pij))))
-            if t == 0.0 and maxabs(Pij, np.eye(k)) > max(1e-12, tolP / 200):  # eigen route: (D^-1 V)(V^-1 D), ~ eps cond(D)
-                return res.fail("p0_not_identity", dict(d2, p=_mat(Pij)))
-            if model in REVERSIBLE:
-                if np.max(np.abs(pi @ Pij - pi)) > tolP:
-                    return res.fail("not_stationary", dict(d2, piP=(pi @ Pij).tolist(), pi=pi.tolist()))
-                F = pi[:, None] * Pij
-                if np.max(np.abs(F - F.T)) > tolP:
-                    return res.fail("detailed_balance", dict(d2, err=float(np.max(np.abs(F - F.T)))))
+            if ill_seen[0] and is_ill(model, pi, t * qnorm):
+                continue  # one record of the known corner per state is enough (its verdicts need multiple precision)
+            v = verdict(Ps[i, j], t, single)
+            if v is not None and report(v, t):
+                return res
         # ---------------- (d) semigroup, on torchtree's own matrices
         tol3 = tol_p(model, pi, (s1 + s2) * qnorm, False)
         e3 = maxabs(Ptri[i, 0] @ Ptri[i, 1], Ptri[i, 2])
-        if not e3 <= 10 * tol3:
-            return res.fail("semigroup", dict(d, s=s1, u=s2, err=e3, tolerance=10 * tol3))
+        if not e3 <= 10 * tol3 and report(("semigroup", dict(d, s=s1, u=s2, err=e3, tolerance=10 * tol3)), s1 + s2):
+            return res
         for j, tv in enumerate((s1, s2, s1 + s2)):
-            e = maxabs(Ptri[i, j], rm.p_t(Qn, tv))
-            tolj = tol_p(model, pi, tv * qnorm, False)
-            if tolj < e <= max(SUSPECT, 100 * EPS * tv * qnorm):
-                e = maxabs(Ptri[i, j], _reference(Qn, pi, tv, model in REVERSIBLE, rm.p_t(Qn, tv)))
-            if not e <= tolj:
-                return res.fail("mismatch", dict(d, t=tv, err=e, tolerance=tolj, what="semigroup triple"), tband=_band(tv, [1e-4, 1e-1, 10], ["<1e-4", "<1e-1", "<10", ">=10"]))
+            if ill_seen[0] and is_ill(model, pi, tv * qnorm):
+                continue
+            v = verdict(Ptri[i, j], tv, False, what="semigroup triple")
+            if v is not None and report(v, tv):
+                return res
 
     out.update(Qs=Qs, pis=pis, Ps=Ps, k=k)
     return None
@@ -691,7 +709,8 @@ def body(c):
             ti = tper[i].reshape(c["B"], c["K"])
             Pi = arr(mi.p_t(torch.tensor(ti.tolist())))
             tol = 1e-9 if (model == "GeneralNonSymmetric" and (ti.size == 1 or single)) else 1e-11
-            tol = max(tol, 0.1 * tol_p(model, pis[i], 0.0, False))  # same algorithm on the same numbers
+            if model in EIGEN_MODELS:  # same algorithm on the same numbers, up to the back-transformation
+                tol = max(tol, 10 * EPS * math.sqrt(float(np.max(pis[i]) / np.min(pis[i]))))
             if Pi.size != nt * k * k:
                 return res.fail("p_shape", {"slice": i, "p": list(Pi.shape), "what": "unbatched rebuild"})
             e = maxabs(Pi.reshape(nt, k, k), Ps[i])
